@@ -25,8 +25,11 @@ import (
 	"crypto/x509"
 	"encoding/hex"
 	"encoding/json"
+	"encoding/pem"
 	"errors"
 	"fmt"
+	"os"
+	"path/filepath"
 	"sort"
 	"strings"
 	"sync"
@@ -70,11 +73,12 @@ var fwSpec = map[string]fw.KeySpec{
 
 const (
 	kindGeneric = "generic"
+	kindFiles   = "generic-from-files"
 	kindRaw     = "plugin-raw"
 	kindEnv     = "plugin-envelope"
 )
 
-var signerKinds = []string{kindGeneric, kindRaw, kindEnv}
+var signerKinds = []string{kindGeneric, kindFiles, kindRaw, kindEnv}
 
 type target struct {
 	Name string
@@ -354,6 +358,7 @@ func (s *scriptRepo) PushSignature(ctx context.Context, mediaType string, blob [
 
 type world struct {
 	chains map[string]*pki.Chain
+	dir    string // PEM files for signer.NewGenericSignerFromFiles: <spec>.key, <spec>.crt
 	v      interface {
 		notation.Verifier
 		notation.BlobVerifier
@@ -370,6 +375,24 @@ func buildWorld(r *hx.Run) *world {
 	w.chains[pki.AllSpecs[0]] = first
 	for _, s := range pki.AllSpecs[1:] {
 		w.chains[s] = pki.NewChain(pki.ChainOpts{Len: 3, LeafSpec: s, LeafIdx: 0, Prefix: "C07 " + s, ReuseCAs: first.Certs[1:]})
+	}
+	w.dir = filepath.Join(hx.Scratch(), "c07-keys")
+	if err := os.MkdirAll(w.dir, 0o700); err != nil {
+		r.Infra("scratch: %v", err)
+		r.Finish()
+	}
+	for _, s := range pki.AllSpecs {
+		der, err := x509.MarshalPKCS8PrivateKey(w.chains[s].Leaf().Key)
+		if err == nil {
+			err = os.WriteFile(filepath.Join(w.dir, s+".key"), pem.EncodeToMemory(&pem.Block{Type: "PRIVATE KEY", Bytes: der}), 0o600)
+		}
+		if err == nil {
+			err = os.WriteFile(filepath.Join(w.dir, s+".crt"), pki.PEM(w.chains[s].X509()...), 0o600)
+		}
+		if err != nil {
+			r.Infra("writing key files: %v", err)
+			r.Finish()
+		}
 	}
 	ts := mocks.NewTrustStore().Put("ca", "s", first.Root().Cert)
 	ts.NoLog = true
@@ -400,6 +423,9 @@ func (w *world) newSigner(c *caseT) (anySigner, *envPlugin, error) {
 	switch c.Signer {
 	case kindGeneric:
 		s, err := signer.NewGenericSigner(ch.Leaf().Key, ch.X509())
+		return s, nil, err
+	case kindFiles:
+		s, err := signer.NewGenericSignerFromFiles(filepath.Join(w.dir, c.Spec+".key"), filepath.Join(w.dir, c.Spec+".crt"))
 		return s, nil, err
 	case kindRaw:
 		var der [][]byte
@@ -599,7 +625,7 @@ func agentClass(got, requested string) string {
 		return "as-requested"
 	case got == envPluginAgent:
 		return "plugin-own"
-	case strings.HasPrefix(got, "notation-go/") && strings.Contains(got, " c07-"):
+	case strings.HasPrefix(got, "notation-go/") && strings.Contains(got, " c07-raw/"):
 		return "library-default+plugin-name"
 	case strings.HasPrefix(got, "notation-go/"):
 		return "library-default"
@@ -659,6 +685,13 @@ func judgeOutcome(res *result, c *caseT, sig []byte, outcome *notation.Verificat
 	}
 }
 
+// checkForwarded: an honest envelope generator can only honour the duration it is told.
+func checkForwarded(res *result, c *caseT, envp *envPlugin) {
+	if envp != nil && envp.lastReq != nil && envp.lastReq.ExpiryDurationInSeconds != uint64(c.ExpirySec) {
+		res.bad("expiry/not-forwarded-to-envelope-plugin", "generate-envelope request carries expiryDurationInSeconds=%d, requested %d", envp.lastReq.ExpiryDurationInSeconds, c.ExpirySec)
+	}
+}
+
 func (w *world) runCase(r *hx.Run, c *caseT) *result {
 	res := &result{}
 	t, ok := findTarget(c.Target)
@@ -690,6 +723,7 @@ func (w *world) runCase(r *hx.Run, c *caseT) *result {
 			res.bad("roundtrip/sign-failed:"+c.Signer, "notation.SignBlob failed for a legal input: %v", err)
 			return res
 		}
+		checkForwarded(res, c, envp)
 		// what was signed, read without the library (also judged when verification fails)
 		if ref, rerr := refsig.Verify(c.Format, sig); rerr == nil {
 			pre := &result{}
@@ -759,11 +793,7 @@ func (w *world) runCase(r *hx.Run, c *caseT) *result {
 		}
 		sig = repo.pushed[0]
 	}
-	if envp != nil && envp.lastReq != nil {
-		if envp.lastReq.ExpiryDurationInSeconds != uint64(c.ExpirySec) {
-			res.bad("expiry/not-forwarded-to-envelope-plugin", "generate-envelope request carries expiryDurationInSeconds=%d, requested %d", envp.lastReq.ExpiryDurationInSeconds, c.ExpirySec)
-		}
-	}
+	checkForwarded(res, c, envp)
 	if !sameMap(desc.Annotations, t.Desc.Annotations) {
 		res.bad("metadata/callers-descriptor-modified", "the annotations of the caller's descriptor changed to %s", vt.MapString(desc.Annotations))
 	}
@@ -939,37 +969,48 @@ func main() {
 	// the full repository path, once per (key spec, format); the signer kind rotates
 	for si, spec := range pki.AllSpecs {
 		for fi, f := range forge.Formats {
-			cases = append(cases, caseT{Spec: spec, Format: f, Signer: signerKinds[(si+fi)%3], Target: "oci-minimal", Meta: "three", ExpirySec: 86400, Agent: agents[(si+fi)%2].Name, Entry: "repository-path"})
+			cases = append(cases, caseT{Spec: spec, Format: f, Signer: signerKinds[(si+fi)%len(signerKinds)], Target: "oci-minimal", Meta: "three", ExpirySec: 86400, Agent: agents[(si+fi)%2].Name, Entry: "repository-path"})
 		}
 	}
 	r.Extra["product_full_size"] = full
 	r.Extra["product_cases_run"] = nProduct
 	r.Extra["repository_path_cases"] = len(cases) - nProduct
-	r.Extra["alphabet"] = map[string]int{"key_specs": len(pki.AllSpecs), "formats": 2, "signer_kinds": 3, "targets": len(tgs), "user_metadata": len(metas), "expiry_durations": len(expirySeconds), "signing_agents": len(agents)}
+	r.Extra["alphabet"] = map[string]int{"key_specs": len(pki.AllSpecs), "formats": 2, "signer_kinds": len(signerKinds), "targets": len(tgs), "user_metadata": len(metas), "expiry_durations": len(expirySeconds), "signing_agents": len(agents)}
 
-	var verified, total atomic.Int64
+	// the round trips run in parallel; judging results are reported afterwards in enumeration order,
+	// so the case written out for a violation key is always the first one of the enumeration
+	results := make([]*result, len(cases))
+	panics := make([]string, len(cases))
 	r.Parallel(len(cases), func(i int) {
+		results[i] = w.runCase(r, &cases[i])
+	}, func(i int, v any, stack string) {
+		panics[i] = fmt.Sprint(v)
+	})
+	var verified, total int64
+	for i := range cases {
 		c := &cases[i]
-		res := w.runCase(r, c)
-		total.Add(1)
+		total++
+		if results[i] == nil {
+			r.Violation("roundtrip/panic", fmt.Sprintf("[%s] panic in the sign/verify round trip: %s", c, panics[i]), c)
+			r.Outcome("panic")
+			continue
+		}
+		res := results[i]
 		if res.verified {
-			verified.Add(1)
+			verified++
 			r.Nontrivial(c.String())
 		}
 		r.Outcome(report(r, c, res))
 		if i%97 == 0 && res.detail != nil {
 			r.Sample(map[string]any{"case": c, "observed": res.detail})
 		}
-	}, func(i int, v any, stack string) {
-		c := cases[i]
-		r.Violation("roundtrip/panic", fmt.Sprintf("[%s] panic in the sign/verify round trip: %v", c, v), c)
-		r.Outcome("panic")
-	})
+		results[i] = nil
+	}
 
-	r.Extra["round_trips"] = total.Load()
-	r.Extra["round_trips_verified"] = verified.Load()
-	if verified.Load() == 0 {
-		r.Infra("vacuous run: none of %d round trips verified", total.Load())
+	r.Extra["round_trips"] = total
+	r.Extra["round_trips_verified"] = verified
+	if verified == 0 {
+		r.Infra("vacuous run: none of %d round trips verified", total)
 	}
 	r.Finish()
 }
